@@ -2,9 +2,10 @@ import TTV.Model.Result
 import TTV.Model.ResC17
 import TTV.Spec.C17
 import TTV.Lemmas.ResEmit
+import TTV.Lemmas.TagViews
 /-! # C17 — tags are scoped (work in progress) -/
 namespace TTV.Props.C17
-open TTV.Result TTV.ResC17 TTV.Spec.C17 TTV.Lemmas.ResEmit
+open TTV.Result TTV.ResC17 TTV.Spec.C17 TTV.Lemmas.ResEmit TTV.Lemmas.TagViews TTV.Lemmas.TagSetL
 set_option linter.unusedSimpArgs false
 
 /-! ## Part A: `current_tags` follows the stack-of-sets semantics -/
@@ -270,5 +271,210 @@ theorem C17_test_local (ctx : TagCtx) (t t' : Nat) (body : List Call)
   have := key body (refStep ctx (.startTest t)) hb
   simp only [refStep, TagCtx.push] at this
   simp only [refStep, TagCtx.push, TagCtx.pop, this]
+
+/-! ## Part B: what wrapped results observe -/
+theorem tevs_stops (k : Nat) : tevs (List.replicate k Call.stop) = [] := by
+  induction k with
+  | zero => rfl
+  | succ k ih => simp [List.replicate_succ, tevs, tev] at ih ⊢
+
+theorem tevs_etodMain (caps : Caps) (c : Call) : tevs (etodMain caps c) = etodVT caps (tevs [c]) := by
+  cases c with
+  | startTestRun => cases h : caps.startRun <;> simp [etodMain, tevs, etodVT, h]
+  | tags n g => cases h : caps.tags <;> simp [etodMain, tevs, etodVT, h]
+  | stopTestRun => simp only [etodMain]; split <;> rfl
+  | time d => simp only [etodMain]; split <;> rfl
+  | progress => simp only [etodMain]; split <;> rfl
+  | done => simp only [etodMain]; split <;> rfl
+  | setFailfast b => simp only [etodMain]; split <;> rfl
+  | stop => rfl
+  | startTest t => rfl
+  | stopTest t => rfl
+  | add k t a => rfl
+
+def absOf (own : TfrOwn) : TfrAbs := { inTest := own.inTest, g := own.globalTags, t := own.testTags }
+
+def optEmit (a : TfrAbs) : Option TEv → List TEv
+  | some x => tfrEmitT a x
+  | none => []
+def optNext (a : TfrAbs) : Option TEv → TfrAbs
+  | some x => tfrNext a x
+  | none => a
+
+theorem tevs_tagsIf (p : TagSet × TagSet) :
+    tevs (if anyTags p = true then [Call.tags p.1 p.2] else []) = tagsIf p := by
+  unfold tagsIf; split <;> rfl
+
+theorem tfrStep_emits_t {σ : Type} (I : Iface σ) (own : TfrOwn) (inner : σ) (c : Call) :
+    (∃ cs, (tfrStep I own inner c).2 = cs.foldl I.step inner ∧ tevs cs = optEmit (absOf own) (tev c)) ∧
+    absOf (tfrStep I own inner c).1 = optNext (absOf own) (tev c) := by
+  cases c with
+  | add k t a =>
+    refine ⟨⟨tfrBlock own k t a, rfl, ?_⟩, rfl⟩
+    simp only [tfrBlock, tevs_append, tevs_tagsIf, optEmit, tev, tfrEmitT, absOf]
+    simp [tevs, tev, List.filterMap_cons]
+  | startTestRun => exact ⟨⟨[.startTestRun], rfl, rfl⟩, rfl⟩
+  | stopTestRun => exact ⟨⟨[.stopTestRun], rfl, rfl⟩, rfl⟩
+  | stop => exact ⟨⟨[.stop], rfl, rfl⟩, rfl⟩
+  | done => exact ⟨⟨[.done], rfl, rfl⟩, rfl⟩
+  | startTest t => exact ⟨⟨[], rfl, rfl⟩, rfl⟩
+  | stopTest t => exact ⟨⟨[], rfl, rfl⟩, rfl⟩
+  | tags n g =>
+    refine ⟨⟨[], rfl, rfl⟩, ?_⟩
+    simp only [tfrStep, absOf, optNext, tev, tfrNext]
+    split <;> simp_all
+  | time d => exact ⟨⟨[], rfl, rfl⟩, rfl⟩
+  | setFailfast b => exact ⟨⟨[], rfl, rfl⟩, rfl⟩
+  | progress => exact ⟨⟨[], rfl, rfl⟩, rfl⟩
+
+/-- the tag-relevant events each node of the graph has received so far determine the states of the leaves
+(and the tag buffers of every `ThreadsafeForwardingResult`) -/
+def LeafT (s : Shape) (st : St s) (e : List TEv) : Prop := ∃ cs, st = run s (init s) cs ∧ tevs cs = e
+
+mutual
+def TReach : (s : Shape) → St s → List TEv → Prop
+  | .sink f, st, e => LeafT (.sink f) st e
+  | .tt ff, st, e => LeafT (.tt ff) st e
+  | .text ff, st, e => LeafT (.text ff) st e
+  | .tbt, st, e => LeafT .tbt st e
+  | .etod c, (_, inner), e => TReach c inner (etodVT (caps c) e)
+  | .deco c, st, e => TReach c st e
+  | .tagger n g c, st, e => TReach c st (taggerVT n g e)
+  | .tfr c, (own, inner), e => absOf own = e.foldl tfrNext {} ∧ TReach c inner (tfrVT {} e)
+  | .multi cs, (_, inner), e => TReachL cs inner e
+  | .e2s _, _, _ => True
+def TReachL : (cs : List Shape) → StL cs → List TEv → Prop
+  | [], _, _ => True
+  | c :: cs, (x, xs), e => TReach c x e ∧ TReachL cs xs e
+end
+
+theorem run_append (s : Shape) (st : St s) (a b : List Call) : run s st (a ++ b) = run s (run s st a) b := by
+  simp [run]
+
+theorem leafT_steps (s : Shape) (st : St s) (e : List TEv) (cs : List Call) (h : LeafT s st e) :
+    LeafT s (cs.foldl (step s) st) (e ++ tevs cs) := by
+  obtain ⟨cs0, h1, h2⟩ := h
+  exact ⟨cs0 ++ cs, by rw [run_append, ← h1]; rfl, by rw [tevs_append, h2]⟩
+
+theorem tevs_cons_split (c : Call) (cs : List Call) : tevs (c :: cs) = tevs [c] ++ tevs cs := by
+  rw [← tevs_append]; rfl
+
+theorem tlift (s : Shape)
+    (h1 : ∀ (st : St s) (e : List TEv) (c : Call), TReach s st e → TReach s (step s st c) (e ++ tevs [c])) :
+    ∀ (cs : List Call) (st : St s) (e : List TEv), TReach s st e → TReach s (cs.foldl (step s) st) (e ++ tevs cs) := by
+  intro cs
+  induction cs with
+  | nil => intro st e h; simpa [tevs] using h
+  | cons c cs ih =>
+    intro st e h
+    have := ih (step s st c) (e ++ tevs [c]) (h1 st e c h)
+    rw [List.append_assoc, ← tevs_cons_split] at this
+    exact this
+
+theorem etodVT_append (caps : Caps) (a b : List TEv) : etodVT caps (a ++ b) = etodVT caps a ++ etodVT caps b := by
+  simp [etodVT]
+
+theorem taggerVT_append (n g : TagSet) (a b : List TEv) : taggerVT n g (a ++ b) = taggerVT n g a ++ taggerVT n g b := by
+  simp [taggerVT]
+
+theorem tfrVT_single (a : TfrAbs) (o : Option TEv) : tfrVT a o.toList = optEmit a o := by
+  cases o <;> simp [tfrVT, optEmit]
+
+theorem foldl_opt (a : TfrAbs) (o : Option TEv) : o.toList.foldl tfrNext a = optNext a o := by
+  cases o <;> rfl
+
+theorem tevs_single (c : Call) : tevs [c] = (tev c).toList := by
+  simp only [tevs, List.filterMap_cons, List.filterMap_nil]; cases tev c <;> rfl
+
+mutual
+theorem treach_steps : ∀ (s : Shape), s.noStream = true → ∀ (cs : List Call) (st : St s) (e : List TEv),
+    TReach s st e → TReach s (cs.foldl (step s) st) (e ++ tevs cs)
+  | .sink f, _ => fun cs st e h => by simp only [TReach] at h ⊢; exact leafT_steps _ st e cs h
+  | .tt ff, _ => fun cs st e h => by simp only [TReach] at h ⊢; exact leafT_steps _ st e cs h
+  | .text ff, _ => fun cs st e h => by simp only [TReach] at h ⊢; exact leafT_steps _ st e cs h
+  | .tbt, _ => fun cs st e h => by simp only [TReach] at h ⊢; exact leafT_steps _ st e cs h
+  | .etod ch, hn => tlift _ (fun st e c h => by
+      obtain ⟨own, inner⟩ := st
+      obtain ⟨k, hk⟩ := etodStep_emits ⟨caps ch, step ch, failfastOf ch⟩ own inner c
+      have hstep : step (.etod ch) (own, inner) c
+          = ((etodStep ⟨caps ch, step ch, failfastOf ch⟩ own inner c).1,
+             (etodMain (caps ch) c ++ List.replicate k Call.stop).foldl (step ch) inner) := by
+        rw [← hk]; rfl
+      rw [hstep]
+      simp only [TReach] at h ⊢
+      have := treach_steps ch (by simpa [Shape.noStream] using hn)
+        (etodMain (caps ch) c ++ List.replicate k Call.stop) inner _ h
+      rw [tevs_append, tevs_stops, List.append_nil, tevs_etodMain] at this
+      simpa [etodVT_append] using this)
+  | .tfr ch, hn => tlift _ (fun st e c h => by
+      obtain ⟨own, inner⟩ := st
+      obtain ⟨⟨em, h1, h2⟩, h3⟩ := tfrStep_emits_t ⟨caps ch, step ch, failfastOf ch⟩ own inner c
+      have hstep : step (.tfr ch) (own, inner) c
+          = ((tfrStep ⟨caps ch, step ch, failfastOf ch⟩ own inner c).1, em.foldl (step ch) inner) := by
+        rw [← h1]; rfl
+      rw [hstep]
+      simp only [TReach] at h ⊢
+      obtain ⟨ha, hr⟩ := h
+      refine ⟨?_, ?_⟩
+      · rw [h3, ha, List.foldl_append, tevs_single, foldl_opt]
+      · have := treach_steps ch (by simpa [Shape.noStream] using hn) em inner _ hr
+        rw [h2, ha] at this
+        rw [tfrVT_append, tevs_single, tfrVT_single]
+        exact this)
+  | .deco ch, hn => tlift _ (fun st e c h => by
+      have hc := treach_steps ch (by simpa [Shape.noStream] using hn) [c] st e (by simpa [TReach] using h)
+      simp only [TReach] at h ⊢
+      cases c with
+      | done => rw [show tevs [Call.done] = [] from rfl, List.append_nil]; exact h
+      | setFailfast b => rw [show tevs [Call.setFailfast b] = [] from rfl, List.append_nil]; exact h
+      | _ => exact hc)
+  | .tagger n g ch, hn => tlift _ (fun st e c h => by
+      have hn' : ch.noStream = true := by simpa [Shape.noStream] using hn
+      simp only [TReach] at h ⊢
+      have hc := treach_steps ch hn' [c] st _ h
+      rw [taggerVT_append]
+      cases c with
+      | startTest t =>
+        have := treach_steps ch hn' [.startTest t, .tags n g] st _ h
+        exact this
+      | done => rw [show tevs [Call.done] = [] from rfl, show taggerVT n g [] = [] from rfl, List.append_nil]; exact h
+      | setFailfast b =>
+        rw [show tevs [Call.setFailfast b] = [] from rfl, show taggerVT n g [] = [] from rfl, List.append_nil]; exact h
+      | _ => exact hc)
+  | .multi ss, hn => tlift _ (fun st e c h => by
+      obtain ⟨own, inner⟩ := st
+      have hn' : Shape.noStreamL ss = true := by simpa [Shape.noStream] using hn
+      simp only [TReach] at h ⊢
+      have hc := treachL_step ss hn' inner e c h
+      cases c with
+      | progress => rw [show tevs [Call.progress] = [] from rfl, List.append_nil]; exact h
+      | startTestRun =>
+        simp only [step]
+        have a1 := treachL_step ss hn' inner e (.setFailfast false) h
+        have a2 := treachL_step ss hn' _ _ (.setFailfast ((failfastL ss inner).headD false)) a1
+        have a3 := treachL_restore ss hn' _ _ (failfastL ss inner) a2
+        have a4 := treachL_step ss hn' _ _ .startTestRun a3
+        rw [show ∀ b, tevs [Call.setFailfast b] = [] from fun _ => rfl, List.append_nil] at a4
+        rw [show ∀ b, tevs [Call.setFailfast b] = [] from fun _ => rfl, List.append_nil] at a4
+        exact a4
+      | _ => exact hc)
+  | .e2s _, hn => by simp [Shape.noStream] at hn
+theorem treachL_step : ∀ (ss : List Shape), Shape.noStreamL ss = true → ∀ (st : StL ss) (e : List TEv) (c : Call),
+    TReachL ss st e → TReachL ss (stepL ss st c) (e ++ tevs [c])
+  | [], _, _, _, _, _ => by simp [TReachL]
+  | s :: ss, hn, (x, xs), e, c, h => by
+      simp only [Shape.noStreamL, Bool.and_eq_true] at hn
+      simp only [TReachL, stepL] at h ⊢
+      exact ⟨by simpa using treach_steps s hn.1 [c] x e h.1, treachL_step ss hn.2 xs e c h.2⟩
+theorem treachL_restore : ∀ (ss : List Shape), Shape.noStreamL ss = true → ∀ (st : StL ss) (e : List TEv) (saved : List Bool),
+    TReachL ss st e → TReachL ss (restoreL ss st saved) e
+  | [], _, _, _, _, _ => by simp [TReachL]
+  | s :: ss, hn, (x, xs), e, saved, h => by
+      simp only [Shape.noStreamL, Bool.and_eq_true] at hn
+      simp only [TReachL, restoreL] at h ⊢
+      have := treach_steps s hn.1 [.setFailfast (saved.headD false)] x e h.1
+      rw [show ∀ b, tevs [Call.setFailfast b] = [] from fun _ => rfl, List.append_nil] at this
+      exact ⟨this, treachL_restore ss hn.2 xs e _ h.2⟩
+end
 
 end TTV.Props.C17
